@@ -78,6 +78,23 @@ func (s Step) packet() []byte {
 			m = m[:20+s.Cut]
 		}
 		return gen.FixLengths(append([]byte(nil), m...))
+	case "tplmore":
+		// the template record is followed by more content in the same message (everyday traffic from
+		// other exporters; this library's exporter sends one record per message): Cut 1 = a second
+		// template record for the spare id 60000 in the same set, 2 = four bytes that are not padding,
+		// 3 = a second set (a data set) behind the template set
+		m := ref.TemplateMessage(h, gen.Wire(s.ID, s.Fields))
+		switch s.Cut {
+		case 1:
+			m = ref.EncodeTemplateRecord(m, ref.Template{ID: 60000, Fields: []ref.Field{{ID: 8, Len: 4}}})
+			return gen.FixLengths(m)
+		case 2:
+			return gen.FixLengths(append(m, 0xDE, 0xAD, 0xBE, 0xEF))
+		default:
+			m = append(m, 0xEA, 0x60, 0, 8, 1, 2, 3, 4) // set id 60000, length 8
+			m[2], m[3] = byte(len(m)>>8), byte(len(m))
+			return m
+		}
 	case "badtype":
 		t := gen.Wire(s.ID, s.Fields)
 		t.Fields = append(t.Fields, ref.Field{ID: 154, Ent: 0, Len: 8}) // flowStartMicroseconds
@@ -149,12 +166,22 @@ func runCase(c Case, st *Stats) *ev.Failure {
 			return ev.Failf("step %d (%s): decoder crashed or hung: %s%s", i, s.Kind, dr.Panic, dr.HungWhy)
 		}
 		switch s.Kind {
-		case "tpl":
+		case "tpl", "tplmore":
 			valid := true
 			for _, f := range s.Fields {
 				if f.Unknown && mode == collector.DecodingModeStrict {
 					valid = false
 				}
+			}
+			if valid && s.Kind == "tplmore" && dr.Err != nil {
+				// A collector may refuse a message whose template record is followed by content it does
+				// not support. The id was read by then: the older template must be gone.
+				if _, had := model[key]; had {
+					invalidated[key] = true
+				}
+				delete(model, key)
+				delete(unjudged, key)
+				break
 			}
 			if valid {
 				if dr.Err != nil {
@@ -273,6 +300,11 @@ func runCase(c Case, st *Stats) *ev.Failure {
 // compareStored checks that the collector's template table equals the model.
 func compareStored(col *glue.Col, model map[glue.TplKey][]ref.Field, unjudged map[glue.TplKey]bool, i int, s Step) *ev.Failure {
 	stored := col.StoredTemplates()
+	for k := range stored {
+		if k.ID == 60000 { // the spare id of the "tplmore" steps: whether it is taken is not judged
+			delete(stored, k)
+		}
+	}
 	if len(stored) != len(model) {
 		return ev.Failf("after step %d (%s domain %d id %d): collector holds %d templates, model %d (%v vs %v)", i, s.Kind, s.Domain, s.ID, len(stored), len(model), keys(stored), keys(model))
 	}
@@ -527,6 +559,10 @@ func genCase(t *rapid.T) Case {
 			}
 			s.Kind = "tpl"
 			tpls = append(tpls, s.Fields)
+		case kind == 3 && rapid.IntRange(0, 2).Draw(t, "more") == 0, kind == 4 && rapid.IntRange(0, 4).Draw(t, "more") == 0:
+			s.Kind = "tplmore"
+			s.Fields = tpls[rapid.IntRange(0, len(tpls)-1).Draw(t, "which")]
+			s.Cut = rapid.IntRange(1, 3).Draw(t, "more_what")
 		case kind == 3: // an earlier template again (refresh or replacement under another id)
 			s.Kind = "tpl"
 			s.Fields = tpls[rapid.IntRange(0, len(tpls)-1).Draw(t, "which")]
